@@ -18,19 +18,20 @@ import re
 
 from harness import core
 
-FIELDS = ("cfg", "files", "nfiles", "stdout", "stderr", "rc", "pre_count", "cache_before")
+FIELDS = ("cfg", "files", "nfiles", "stdout", "stderr", "rc", "pre_count", "cache_before", "cache_after")
 CLAUSE_FIELD = {"Inv_SameFiles": "files", "Inv_SameStdout": "stdout", "Inv_SameStderr": "stderr", "Inv_SameStatus": "rc"}
 
 
 def varies_with(runs, field):
-    """Which configuration dimensions distinguish the runs that disagree with the first run (diagnostic + key)."""
-    base = runs[0]
-    dims = None
-    for r in runs[1:]:
-        if r[field] != base[field]:
-            d = {k for k in r["cfg"] if r["cfg"][k] != base["cfg"][k]}
-            dims = d if dims is None else (dims & d)
-    return sorted(dims or [])
+    """Diagnostic only: the configuration dimensions whose value alone determines the observed value in this history."""
+    dims = []
+    for d in sorted(runs[0]["cfg"]):
+        by = {}
+        for r in runs:
+            by.setdefault(r["cfg"][d], set()).add(json.dumps(r[field]))
+        if all(len(v) == 1 for v in by.values()) and len({next(iter(v)) for v in by.values()}) > 1:
+            dims.append(d)
+    return dims
 
 
 def main() -> int:
@@ -74,10 +75,10 @@ def main() -> int:
             raise core.MachineryFailure("binding self-check %s failed for %s/%s: %s" % (v["invariant"], h["model"], h["target"], [(r["cfg"], r["pre_count"], r["cache_before"]) for r in h["runs"]][:8]))
         field = CLAUSE_FIELD[v["invariant"]]
         dims = varies_with(h["runs"], field)
-        key = {"target": h["target"], "clause": v["invariant"], "varies_with": "+".join(dims)}
+        key = {"target": h["target"], "clause": v["invariant"], "model": h["model"]}
         first = h["runs"][0]
         other = next(r for r in h["runs"] if r[field] != first[field])
-        detail = "%s/%s: %s differs between %s and %s" % (h["model"], h["target"], field, first["cfg"], other["cfg"])
+        detail = "%s/%s: %s differs between %s and %s (explained by: %s)" % (h["model"], h["target"], field, first["cfg"], other["cfg"], "|".join(dims) or "no single dimension")
         if field == "files":
             a, b = dict(map(tuple, first["entries"])), dict(map(tuple, other["entries"]))
             diff = sorted(k for k in set(a) | set(b) if a.get(k) != b.get(k))
